@@ -116,11 +116,19 @@ func H07Bare() {
 	var s []byte
 	for k := 0; k < n; k++ {
 		// each character is one allowed ASCII byte or a two-byte rune U+00C0..U+00FF
+		// or one arbitrary byte >= 0x80 that cannot be part of the encoding of a Unicode space
+		// (continuation bytes, lead bytes C3..DF, invalid bytes F5..FF): a stray byte is an
+		// ordinary character of the word
 		if vndBool("wide") {
 			c := vndByte("cont")
 			vndAssume(vndAnd(c >= 0x80, c <= 0xbf))
 			s = append(s, 0xc3, c)
 			vndReach("h07:bare-nonascii")
+		} else if vndBool("raw") {
+			c := vndByte("rawbyte")
+			vndAssume(vndOr(vndAnd(c >= 0x80, c <= 0xbf), vndOr(vndAnd(c >= 0xc3, c <= 0xdf), c >= 0xf5)))
+			s = append(s, c)
+			vndReach("h07:bare-raw")
 		} else {
 			c := vndByte("s")
 			vndAssume(h07isBareByte(c))
@@ -334,6 +342,16 @@ func H07Templates() {
 	vndAssert(err != nil, "empty-fixed-list-rejected-template")
 	_, err = NewFilter(".config:" + string(w))
 	vndAssert(err != nil, "dot-config-filter-rejected-any-value")
+	cf := ".config:" + string(w)
+	for _, q := range []string{"* OR " + cf, "a:b OR * OR " + cf, "* OR -" + cf, "a:b (* OR " + cf + ")", "-(* OR " + cf + ")",
+		cf + " OR *", "* " + cf, "-" + cf, "a:b OR " + cf, "a:b AND " + cf, "(a:b) (" + cf + ")", "* AND (a:b OR -(" + cf + "))"} {
+		_, err = NewFilter(q)
+		vndAssert(err != nil, "dot-config-filter-rejected-inside-any-boolean-structure")
+	}
+	for _, q := range []string{"a,.unit", ".unit,a", "a,.unit@" + string(w), ".name .unit"} {
+		_, err = pp.Parse(q, filter)
+		vndAssert(err != nil, "dot-unit-projection-rejected-among-other-fields")
+	}
 	// upper-case words in value position: AND/OR are keywords, never values
 	u := make([]byte, len(w))
 	for k := range w {
